@@ -242,6 +242,14 @@ func init() {
 		}
 		return out
 	}
+	c06 := findCheck("C06")
+	c06.Harnesses = append(c06.Harnesses, Harness{Name: "C06_fpzero", Pkg: "zzh", Func: "H_C06_fpzero", Reach: []string{"done"}, FP: true,
+		What: "BIT-PRECISE (binary64): the sign of a zero element survives construction and movement: Zeros holds +0 and Full(dims,-0) holds -0 in either construction order (innermost size 1..3), TensorOf / Reshape / Transpose / Concat deliver -0 as -0 and +0 as +0",
+		Items: tiered(func() []Item {
+			return items(map[string]int64{"n": 1, "order": 0}, map[string]int64{"n": 2, "order": 0}, map[string]int64{"n": 2, "order": 1}, map[string]int64{"n": 3, "order": 1})
+		}, func() []Item {
+			return items(map[string]int64{"n": 1, "order": 0}, map[string]int64{"n": 1, "order": 1}, map[string]int64{"n": 2, "order": 0}, map[string]int64{"n": 2, "order": 1}, map[string]int64{"n": 3, "order": 0}, map[string]int64{"n": 3, "order": 1})
+		})})
 	c05 := findCheck("C05")
 	c05.Harnesses = append(c05.Harnesses, Harness{Name: "C05_big", Pkg: "zzh", Func: "H_C05_big", Reach: []string{"done"},
 		What:  "size ladder: Sum/Avg/Mean/Var/Std/Max/Min of vectors of 255..8200 elements (fixed small integers except 9-25 solver-chosen elements at head, tail and every 509th position; extrema: tail only), the same statistic (and SumAlong(0)) of the same data as an [n/8, 8] matrix when 8 divides n",
@@ -270,4 +278,7 @@ func init() {
 		Items: tiered(func() []Item { return items(map[string]int64{"n": 1}, map[string]int64{"n": 2}) }, func() []Item {
 			return items(map[string]int64{"n": 1}, map[string]int64{"n": 2}, map[string]int64{"n": 3})
 		})})
+	c05.Harnesses = append(c05.Harnesses, Harness{Name: "C05_fpcond", Pkg: "zzh", Func: "H_C05_fpcond", Reach: []string{"done"}, FP: true,
+		What: "BIT-PRECISE (binary64): Var of a vector of 2 elements in [1e8, 1e8+1] (3 elements: no solver verdict within 3 minutes, not registered) is within 1e-6 relative + 1e-6 absolute of the two-pass definition evaluated in binary64 - an accuracy bound every backward-stable formulation meets and a cancelling one-pass formula does not",
+		Items: tiered(func() []Item { return items(map[string]int64{"n": 2}) }, func() []Item { return items(map[string]int64{"n": 2}) })})
 }
